@@ -21,6 +21,8 @@ query Clash($query: String, $data: Int) { q(b: [], query: $query, data: $data) }
 query Keyword($className: String) { q(b: [], className: $className) }
 query Capital($Query: String, $DATA: Int) { q(b: [], query: $Query, data: $DATA) }
 query Required($f: Filter!, $m: [[Int]]) { q(b: [], f: $f, m: $m) }
+query MixedA($n: Int!, $s: String!, $o: Int) { q(a: $n, b: [], query: $s, data: $o) }
+query MixedB($n: Int, $s: String, $req: String!) { q(a: $n, b: [], query: $s, className: $req) }
 """
 SCHEMA_NAMES = """
 input Renamed { from: String _id: String schema: String camelCase: String }
@@ -103,6 +105,12 @@ def run_cases():
                 rep["cases"].append(name)
         refuse("required-list-of-nullable-items-cannot-be-omitted", "plain", dict(a=1))
         refuse("required-input-cannot-be-omitted", "required", dict())
+        # one scalar, different nullability in different operations (and within one): each variable keeps its own
+        refuse("required-scalar-after-the-same-scalar-was-nullable-elsewhere", "mixed_a", dict(s="x"))
+        refuse("required-scalar-after-the-same-scalar-was-nullable-elsewhere-2", "mixed_a", dict(n=1))
+        case("nullable-and-required-uses-of-one-scalar-in-one-operation", "mixed_a", dict(n=1, s="x"), {"n": 1, "s": "x"})
+        case("nullable-scalar-after-the-same-scalar-was-required-elsewhere", "mixed_b", dict(req="r"), {"req": "r"})
+        refuse("required-scalar-next-to-nullable-ones", "mixed_b", dict(n=1, s="x"))
         case("required-input-and-list-of-lists", "required", dict(f=it.Filter(maybe=[None, 1]), m=[[1, None], None]),
              {"f": {"maybe": [None, 1]}, "m": [[1, None], None]})
     except Exception as e:   # noqa
